@@ -133,7 +133,7 @@ def radial_potential_uniform_grid(r, rho):
     l, d, u = fd_system_uniform_grid(r)  # noqa:E741
     rho_ = rho.copy()
     rho_[-1] = 0  # Boundary condition
-    phi = tridiagonal_matrix_algorithm(l, d, u, -rho/EPS_0)
+    phi = tridiagonal_matrix_algorithm(l, d, u, -rho_/EPS_0)
     return phi
 
 
@@ -221,7 +221,7 @@ def radial_potential_nonuniform_grid(r, rho):
     l, d, u = fd_system_nonuniform_grid(r)
     rho_ = rho.copy()
     rho_[-1] = 0  # Boundary condition
-    phi = tridiagonal_matrix_algorithm(l, d, u, -rho/EPS_0)
+    phi = tridiagonal_matrix_algorithm(l, d, u, -rho_/EPS_0)
     return phi
 
 
